@@ -333,6 +333,11 @@ def gen_scenario(rng, tier):
             t['get_plan'] = {str(start): outs}
         transfers.append(t)
     user = rng.choice(['exit', 'exit', 'shutdown', 'cancel', 'cancel', 'ctrl-c-block', 'ctrl-c-result', 'exception-block'])
+    if user in ('cancel', 'ctrl-c-block') and rng.random() < 0.5:
+        # a cancel racing the final rename, which fails
+        for t in transfers:
+            if not (t.get('head_fails') or t.get('alloc_fails')):
+                t['rename_fails'] = True
     return {'cfg': cfg, 'transfers': transfers, 'user': user, 'after_steps': rng.choice([0, 1, 3, 6, 10, 20, 40, 80]),
             'cancel_transfer': rng.randrange(len(transfers)), 'mode': rng.choice(['uniform', 'sticky', 'pct', 'stall']),
             'sched_seed': rng.randrange(1 << 30), 'collect': rng.random() < 0.6}
